@@ -44,6 +44,7 @@ def decOp (s : String) : Option Op :=
   | ["J", i, r] => some (.proj false i.toNat! (decRes r))
   | ["V", i, r] => some (.proj true i.toNat! (decRes r))
   | ["A", r] => some (.all (decRes r))
+  | ["Q"] => some .query
   | _ => none
 
 def decOps (s : String) : List Op :=
@@ -144,6 +145,7 @@ def step (h : List Bytes → UInt64) (st : Run) : Op → Run
   | .all r =>
     (List.range st.world.projs.length).foldl
       (fun st i => stepOne h st (isUnitProj st.world i) i r) st
+  | .query => st
 
 def run (h : List Bytes → UInt64) (ops : List Op) : Run :=
   ops.foldl (step h) { world := World.new, streams := [], perr := [] }
@@ -164,7 +166,7 @@ def maskOf (flat sel : List Field) : String :=
 def pairsUpTo (n : Nat) : List (Nat × Nat) :=
   (List.range (min n 7)).flatMap fun a => ((List.range (min n 7)).filter (a < ·)).map fun b => (a, b)
 
-def renderProj (pn : Bytes → NumC) (id : String) (pi : Nat) (p : Proj) (stream : List Nat) : String :=
+def renderProj (pn : Bytes → NumC) (id : String) (tag : String) (pi : Nat) (p : Proj) (stream : List Nat) : String :=
   let distinct := dedupNat stream       -- node ids in order of first occurrence in the stream
   let n := distinct.length
   let ids := stream.map fun k => distinct.idxOf k
@@ -183,19 +185,29 @@ def renderProj (pn : Bytes → NumC) (id : String) (pi : Nat) (p : Proj) (stream
   let eq := if n == 0 then "-" else
     ".".intercalate (first.map fun a => String.ofList (first.map fun b => bit (equalRow (p.vals a) (p.vals b))))
   let strv := if n == 0 then "-" else ",".intercalate (distinct.map fun k => (p.keyStringValues k).toHex)
-  s!"obs {id} p={pi} fields={showHexList p.fieldNames} flat={showHexList (flat.map (·.name))} n={n} ids={showNats ids} get={get} str={str} less={less} sorts={sorts} ns={ns} nsr={nsr} nsp={nsp} eq={eq} strv={strv}"
+  s!"obs {id} {tag}p={pi} fields={showHexList p.fieldNames} flat={showHexList (flat.map (·.name))} n={n} ids={showNats ids} get={get} str={str} less={less} sorts={sorts} ns={ns} nsr={nsr} nsp={nsp} eq={eq} strv={strv}"
 
-def obsLines (pn : Bytes → NumC) (raw : List (Bytes × String)) (id : String) (ops : List Op) : List String :=
+/-- The model's observables after `ops` (tag "" = end of the scenario, "q=<i> " = a query). -/
+def obsRender (pn : Bytes → NumC) (id : String) (tag : String) (ops : List Op) : List String :=
   let st := run weakHash ops
   let pe := if st.perr.isEmpty then "-" else ".".intercalate st.perr
-  s!"obs {id} parse={pe} np={st.world.projs.length}" ::
+  s!"obs {id} {tag}parse={pe} np={st.world.projs.length}" ::
+    (st.world.projs.zipIdx.map fun (p, i) => renderProj pn id tag i p (st.streams.getD i []))
+
+/-- Positions of the query operations. -/
+def queryPoints (ops : List Op) : List Nat :=
+  ops.zipIdx.filterMap fun (op, i) => match op with
+    | .query => some i
+    | _ => none
+
+def obsLines (pn : Bytes → NumC) (raw : List (Bytes × String)) (id : String) (ops : List Op) : List String :=
   s!"obs {id} pn={showPn ((specPn raw).map fun e => (e.1, e.2.1))}" ::
-    (st.world.projs.zipIdx.map fun (p, i) => renderProj pn id i p (st.streams.getD i []))
+    (((queryPoints ops).flatMap fun i => obsRender pn id s!"q={i} " (ops.take i)) ++ obsRender pn id "" ops)
 
 /-! ### The specification's lines -/
 
 open Spec.Keys in
-def specProj (pn : Bytes → Spec.ParseNum.SNum) (id : String) (specific : List Bytes) (pi : Nat) (p : PSpec)
+def specProj (pn : Bytes → Spec.ParseNum.SNum) (id : String) (tag : String) (specific : List Bytes) (pi : Nat) (p : PSpec)
     (obs : List Obs) : String :=
   let cols := columns specific p obs       -- fields also grow on results that are not interned
   let tuples := (obs.filter (·.interned)).map fun o => cols.map fun c => c.value specific o
@@ -218,7 +230,7 @@ def specProj (pn : Bytes → Spec.ParseNum.SNum) (id : String) (specific : List 
   let nsp := if pairs.isEmpty then "-" else ".".intercalate pairs
   let str := if n == 0 then "-" else ",".intercalate (distinct.map fun t => (tupleString true cols t).toHex)
   let strv := if n == 0 then "-" else ",".intercalate (distinct.map fun t => (tupleString false cols t).toHex)
-  s!"spec {id} p={pi} flat={showHexList (cols.map (·.name))} n={n} ids={showNats ids} get={get} less={less} sorts={sorts} nsp={nsp} str={str} strv={strv}"
+  s!"spec {id} {tag}p={pi} flat={showHexList (cols.map (·.name))} n={n} ids={showNats ids} get={get} less={less} sorts={sorts} nsp={nsp} str={str} strv={strv}"
 
 open Spec.Keys in
 def specLines (raw : List (Bytes × String)) (id : String) (ops : List Op) : List String :=
@@ -226,7 +238,13 @@ def specLines (raw : List (Bytes × String)) (id : String) (ops : List Op) : Lis
   let pn := specNumOf tbl
   let specific := specificKeys ops
   let ps := projections ops
-  let perProj := ps.zipIdx.map fun (p, i) => specProj pn id specific i p (observations ops ps i)
+  -- the specification is stateless: what a query sees is the specification of the prefix, with the
+  -- keys excluded that ALL accepted expressions of the scenario name (all parsing precedes projecting)
+  let atQuery := (queryPoints ops).flatMap fun q =>
+    let pre := ops.take q
+    let psq := projections pre
+    psq.zipIdx.map fun (p, i) => specProj pn id s!"q={q} " specific i p (observations pre psq i)
+  let perProj := atQuery ++ ps.zipIdx.map fun (p, i) => specProj pn id "" specific i p (observations ops ps i)
   let alls := ops.filterMap fun
     | .all r => if r.units.isEmpty then none else some r
     | _ => none
@@ -263,7 +281,11 @@ def judgeSto (m : String) : String :=
 def handle (l : Line) : List String :=
   if l.kind == "sobs" then
     match l.get? "sto" with
-    | some m => [s!"spec {l.id} p={l.getD "p" "0"} sto={judgeSto m}"]
+    | some m =>
+      let tag := match l.get? "q" with
+        | some q => s!"q={q} "
+        | none => ""
+      [s!"spec {l.id} {tag}p={l.getD "p" "0"} sto={judgeSto m}"]
     | none => []
   else
   if l.kind != "case" then [] else
